@@ -149,10 +149,41 @@ def _global_rename_locals(root: str) -> None:
                     fh.write(_ast.unparse(tree) + "\n")
 
 
+def _global_swap_if_else(root: str) -> None:
+    """behaviour-preserving: every `if c: A else: B` (with a non-empty else that is not an elif chain) becomes
+    `if not c: B else: A`; conditional expressions likewise"""
+    import ast as _ast
+
+    class T(_ast.NodeTransformer):
+        def visit_If(self, node):
+            self.generic_visit(node)
+            if node.orelse and not (len(node.orelse) == 1 and isinstance(node.orelse[0], _ast.If)):
+                node.test = _ast.UnaryOp(op=_ast.Not(), operand=node.test)
+                node.body, node.orelse = node.orelse, node.body
+            return node
+
+        def visit_IfExp(self, node):
+            self.generic_visit(node)
+            node.test = _ast.UnaryOp(op=_ast.Not(), operand=node.test)
+            node.body, node.orelse = node.orelse, node.body
+            return node
+
+    for d, _, files in os.walk(os.path.join(root, "synrbl")):
+        for f in files:
+            if f.endswith(".py"):
+                p = os.path.join(d, f)
+                with open(p) as fh:
+                    tree = T().visit(_ast.parse(fh.read()))
+                _ast.fix_missing_locations(tree)
+                with open(p, "w") as fh:
+                    fh.write(_ast.unparse(tree) + "\n")
+
+
 GLOBAL_VARIANTS = {
     "global-benign-reformat": _global_reformat,
     "global-benign-shuffle-methods-noop": _global_shuffle,
     "global-benign-rename-locals": _global_rename_locals,
+    "global-benign-swap-if-else": _global_swap_if_else,
 }
 
 
